@@ -336,8 +336,10 @@ class TypeTransformer:
         else:
             try:
                 # try for iterable of key, value pairs
-                # but data loss may happen in this case
-                # like dict([{"a": 1, "b": 2}]) == {"a": "b"}
+                if multi(data) and any(isinstance(item, Mapping) for item in data):
+                    # dict([{"a": 1, "b": 2}]) == {"a": "b"} is not a pairs form: take the mapping itself (below),
+                    # which is also what the no_data_loss branch does
+                    raise TypeError
                 return t(data)
                 # directly return
             except (TypeError, ValueError):
